@@ -429,7 +429,9 @@ class Checker(object):
             elif not is_complete(infos.get(DB), self.ref, self.target):
                 self.bad("next start does not leave the complete database at %s" % DB, where)
             for n, h in crash_shas.items():
-                if n != DB and shas.get(n) != h:
+                # the neighbours that were there before; what becomes of the server's OWN leftover temporary file at the
+                # next start (kept, removed) is not C19's business
+                if n != DB and n in self.shas0 and shas.get(n) != h:
                     self.bad("next start changed %s" % n, where)
         elif exp == "upgrade":
             if outcome != "OK":
